@@ -64,4 +64,9 @@ CLAIMED['C15'] = ('DESIGN.md 4/C15', 'transform / transform_w_scipy_fft / itrans
     'linear form compared with an independent S-transform oracle for ALL records (n<=9), plus row marginals, the '
     'inverse, linearity, and the dominant-frequency trace for on-grid sinusoids with symbolic amplitude pair (each '
     'argmax comparison a definite binary quadratic form, decided exactly), odd and even lengths.')
+CLAIMED['C17'] = ('DESIGN.md 4/C17', 'butter_pass executed symbolically through a filtfilt contract model with the real scipy.signal.butter '
+    'coefficients: length/dt, linearity on fully symbolic 40-sample records for every type/order/Gibbs/container setting, '
+    'and the zero-phase squared-Butterworth gain for sinusoids with symbolic amplitude pair against an independent '
+    'bilinear-transform magnitude; exact detrending laws through a rational least-squares model of polyfit, element-wise '
+    'adders with their rejections, and the running average against the original-sample window mean.')
 NOT_APPLICABLE = {}
